@@ -446,6 +446,8 @@ func (c *Cluster) respondProduce(e *Entry, req *produce.Request, isErr bool, cod
 					part.Append(nb)
 				}
 				e.Applied = true
+				// the client may have given this attempt up (closed the connection) before the broker got to it
+				e.ClientGone = e.sc.cli.Closed()
 			}
 			rt.Partitions = append(rt.Partitions, rp)
 		}
